@@ -22,6 +22,7 @@
 //!   `c20.chpl  <ver> <target> <event> <state>`           user_can_change_user_power_level(sender, target)
 //!   `c20.levels <content> <user> <mtype> <stype>`        for_user / for_action / user_can_do / push condition
 //!   `c20.deser <content>`                                the deserialized `RoomPowerLevels`
+//!   `c20.deserred <ver> <content>`                       the `RoomPowerLevels` of the REDACTED event (redaction rules of <ver>)
 #[allow(dead_code)]
 #[path = "../../h-c08/src/pdu.rs"]
 mod pdu;
@@ -380,6 +381,55 @@ fn str_tok(t: &str) -> Option<String> {
     t.strip_prefix('s').and_then(h_util::unhex_str)
 }
 
+/// The answer line of `c20.deser` / `c20.deserred`.
+fn show_levels_line(pl: &RoomPowerLevels) -> String {
+    let mut s = format!(
+        "ok {} {} {} {} {} {} {} {} e{}",
+        pl.ban,
+        pl.events_default,
+        pl.invite,
+        pl.kick,
+        pl.redact,
+        pl.state_default,
+        pl.users_default,
+        pl.notifications.room,
+        pl.events.len()
+    );
+    for (k, v) in &pl.events {
+        s.push_str(&format!(" {} {}", stok(&k.to_string()), v));
+    }
+    s.push_str(&format!(" u{}", pl.users.len()));
+    for (k, v) in &pl.users {
+        s.push_str(&format!(" {} {}", stok(k.as_str()), v));
+    }
+    s
+}
+
+/// `c20.deserred <ver> <content>`: the content redacted by the real redaction algorithm under the
+/// rules of room version `<ver>`, read as `RedactedRoomPowerLevelsEventContent`, converted to
+/// `RoomPowerLevels`.
+fn run_deserred(toks: &[&str]) -> Outcome {
+    let Some(ver) = toks.first().and_then(|v| v.parse::<u32>().ok()).filter(|v| (1..=11).contains(v)) else {
+        return Outcome::bad();
+    };
+    let Some((c, used)) = parse_one(&toks[1..]) else { return Outcome::bad() };
+    if used + 1 != toks.len() || !c.is_object() {
+        return Outcome::bad();
+    }
+    let Ok(ruma_common::CanonicalJsonValue::Object(mut obj)) = ruma_common::CanonicalJsonValue::try_from(c) else {
+        return Outcome::bad();
+    };
+    let rules = h_lib::version_id(ver).rules().expect("rules");
+    if ruma_common::canonical_json::redact_content_in_place(&mut obj, &rules.redaction, T_PL).is_err() {
+        return Outcome::new("err");
+    }
+    let text = serde_json::to_string(&obj).unwrap();
+    match serde_json::from_str::<RedactedRoomPowerLevelsEventContent>(&text) {
+        Ok(r) => Outcome::new(show_levels_line(&RoomPowerLevels::from(r))),
+        Err(_) => Outcome::new("err"),
+    }
+}
+
 fn run_deser(toks: &[&str]) -> Outcome {
     let Some((c, used)) = parse_one(toks) else { return Outcome::bad() };
     if used != toks.len() || !c.is_object() {
@@ -426,25 +476,7 @@ fn run_deser(toks: &[&str]) -> Outcome {
             }
         }
     }
-    let mut s = format!(
-        "ok {} {} {} {} {} {} {} {} e{}",
-        pl.ban,
-        pl.events_default,
-        pl.invite,
-        pl.kick,
-        pl.redact,
-        pl.state_default,
-        pl.users_default,
-        pl.notifications.room,
-        pl.events.len()
-    );
-    for (k, v) in &pl.events {
-        s.push_str(&format!(" {} {}", stok(&k.to_string()), v));
-    }
-    s.push_str(&format!(" u{}", pl.users.len()));
-    for (k, v) in &pl.users {
-        s.push_str(&format!(" {} {}", stok(k.as_str()), v));
-    }
+    let s = show_levels_line(&pl);
     Outcome { imp: s, t3 }
 }
 
@@ -532,6 +564,7 @@ pub fn run(req: &str) -> Outcome {
     let toks: Vec<&str> = req.split(' ').collect();
     match toks[0] {
         "c20.deser" => run_deser(&toks[1..]),
+        "c20.deserred" => run_deserred(&toks[1..]),
         "c20.levels" => run_levels(&toks[1..]),
         op => run_action(op, &toks[1..]),
     }
